@@ -409,20 +409,38 @@ func (c *fsCache) set(key string, entry []byte) error {
 		}
 	}
 	name := c.fn.FileName(key)
-	if err := c.root.MkdirAll(filepath.Dir(name), 0o755); err != nil {
+	dir := filepath.Dir(name)
+	if err := c.root.MkdirAll(dir, 0o755); err != nil {
 		return err
 	}
-	f, err := c.root.Create(name)
+	// The value is written to a temporary file next to its destination and then
+	// renamed over it, so that readers (and a later process, if this one dies or the
+	// write fails half way) see either the previous value or the new one in full.
+	tmp := filepath.Join(dir, tempFilePrefix+rand.Text())
+	f, err := c.root.OpenFile(tmp, os.O_WRONLY|os.O_CREATE|os.O_EXCL, 0o666)
 	if err != nil {
 		return err
 	}
-	defer f.Close()
 	_, err = f.Write(entry)
+	if err == nil {
+		err = f.Sync()
+	}
+	if cerr := f.Close(); err == nil {
+		err = cerr
+	}
+	if err == nil {
+		err = c.root.Rename(tmp, name)
+	}
 	if err != nil {
+		_ = c.root.Remove(tmp)
 		return err
 	}
-	return f.Sync()
+	return nil
 }
+
+// tempFilePrefix marks files that hold a value while it is being written. It
+// cannot be the start of a key's file name (see [fragmentFileName]).
+const tempFilePrefix = ".tmp-"
 
 func (c *fsCache) Delete(key string) error {
 	ctx, cancel := context.WithTimeout(context.Background(), c.timeout)
@@ -491,8 +509,8 @@ func (c *fsCache) keys(prefix string) ([]string, error) {
 		if err != nil {
 			return err
 		}
-		if d.IsDir() {
-			return nil
+		if d.IsDir() || strings.HasPrefix(d.Name(), tempFilePrefix) {
+			return nil // directories, and values still being written (or left behind by a crash)
 		}
 		key, err := c.fnk.KeyFromFileName(
 			strings.TrimPrefix(path, dirname+string(os.PathSeparator)),
